@@ -78,3 +78,61 @@ def run(ctx, rep):
         else:
             rep.violation("TZ-DEP", key, "a non-error return does not depend on the time zone: %s" % show(a, maxd=4)[:300], f.loc())
     rep.floor("TZ-DEP returns", n, 3)
+    until_search(rep, prog)
+
+
+def until_search(rep, prog, rule="UNTIL-SEARCH"):
+    """the search for the intermediate datetime in the zoned difference"""
+    from .. import mir
+    from ..guards import guards, strip_not
+    rep.rule(rule, "ZonedDifference::until_with_largest_unit (largest >= Day): (1) when both civil dates are equal the result is the "
+                   "exact elapsed time (a return of Timestamp::until guarded by an equality of the two civil dates): inside a fold the "
+                   "order of the clock times can be the reverse of the order of the instants, and a search for an intermediate "
+                   "datetime on the wrong side mixes signs; (2) no failing return of the search is selected by the direction of the "
+                   "difference (a test of `sign` against a constant): an overshoot is retried with one more day in both directions, "
+                   "otherwise ordinary backward differences that end in the second occurrence of a fold are errors")
+    f = prog.jiff("zoned::ZonedDifference::<'a>::until_with_largest_unit")
+    T = Terms(f)
+    cfg = mir.CFG(f)
+    # (1)
+    same_date = False
+    for bi, t in mir.iter_calls(f):
+        if t.get("path", "").endswith("Timestamp::until"):
+            for (c, truth, _sb) in guards(f, cfg, T, bi):
+                c2, tr2 = strip_not(c, truth)
+                if c2[0] == "call" and c2[1].rsplit("::", 1)[-1] in ("eq", "ne") and len(c2[2]) == 2 and \
+                        all(any(is_call(x, "DateTime::date") for x in walk(a_)) for a_ in c2[2]):
+                    is_eq = c2[1].rsplit("::", 1)[-1] == "eq"
+                    if (is_eq and tr2 is True) or (not is_eq and tr2 is False):
+                        same_date = True
+    if same_date:
+        rep.ok(rule, "same civil date", how="exact elapsed time under dt1.date() == dt2.date()", loc=f.loc())
+    else:
+        rep.violation(rule, "same civil date", "no return of the exact elapsed time guarded by equality of the two civil dates: two "
+                      "instants on one civil date inside a fold (01:30-04 and 01:10-05 on 2024-11-03 in America/New_York) get a "
+                      "calendar search on the wrong side and a span of mixed signs", f.loc())
+    # (2)
+    bad = []
+    n_err = 0
+    for bi, b in enumerate(f.blocks):
+        for si, s in enumerate(b["st"]):
+            if s["s"] == "=" and s["lhs"]["l"] == 0 and s["rv"]["k"] == "agg" and s["rv"].get("variant") == "Err":
+                n_err += 1
+                for (c, truth, _sb) in guards(f, cfg, T, bi):
+                    c2, _tr2 = strip_not(c, truth)
+                    if c2[0] == "call" and c2[1].rsplit("::", 1)[-1] in ("eq", "ne") and len(c2[2]) == 2:
+                        a_, b_ = c2[2]
+                        is_sign = lambda t_: any(is_call(x, "util::t::sign") for x in walk(t_)) and not any(is_call(x, "DateTime::to_zoned") for x in walk(t_))
+                        # a comparison with 0 is the "same instant" test; a direction test compares with +-1
+                        is_const = lambda t_: t_[0] == "call" and t_[1].rsplit("::", 1)[-1] in ("C", "N") and t_[2] and t_[2][0][0] == "const" \
+                            and t_[2][0][1] != 0
+                        if (is_sign(a_) and is_const(b_)) or (is_sign(b_) and is_const(a_)):
+                            bad.append(s.get("ln"))
+    if n_err == 0:
+        rep.violation(rule, "direction-independent search", "anchor missing: no failing return found", f.loc())
+    elif bad:
+        rep.violation(rule, "direction-independent search", "the failing return at line(s) %s is selected by the direction of the difference "
+                      "(sign compared with a constant): an overshoot of the first intermediate datetime is not retried in that "
+                      "direction" % sorted(set(bad)), f.loc())
+    else:
+        rep.ok(rule, "direction-independent search", how="%d failing return(s), none selected by the direction" % n_err, loc=f.loc())
